@@ -193,7 +193,9 @@ CLAIMS.update({
                 'that chunk as the probe), C02_ack_progress (a validated SACK ahead of the cumulative point is accepted, pops k >= 1 chunks and their bytes; empty queues => zero buffered '
                 'bytes), C02_drains_fault_free and C02_recovers_after_blackout (from EVERY reachable established state the schedule "[T3;] rounds of gather + SACK acknowledging everything '
                 'in flight" empties both queues and all buffered amounts within pending chunks + 1 <= pending bytes + 1 rounds, for every window the SACKs advertise and every peek choice: '
-                'no reachable sender state is a dead end). NOT covered by theorems: timers really firing and goroutine wake-ups, the RECEIVER half (in the drain theorems the peer\'s SACK is '
+                'no reachable sender state is a dead end), C02_recovers_faithful (the same with a peer whose SACK is earned: each round = T3 expiry, gather, cumulative SACK for exactly the longest prefix '
+                'of the queue a peer that keeps nothing beyond its cumulative point can have - gap-acked before, skipped by this gather\'s FORWARD-TSN, or put on the wire by this gather; '
+                'in-flight + pending rounds suffice). NOT covered by theorems: timers really firing and goroutine wake-ups, the RECEIVER half (in the drain theorems the peer\'s SACK is '
                 'an input of the schedule), the composition over a network that eventually heals, the wall-clock bound. '
                 'SYSTEM LEVEL (exploration, synctest e2e): ' + CLAIMS['C02']['text'],
         'note': SENDER_NOTE + ' Premises of the drain theorems: fragment size <= maxPayloadSizeForMTU (CfgFit), peek returns a chunk of a non-empty queue (PickOk), fewer than 2^31 chunks queued. '
